@@ -69,8 +69,8 @@ c.finish(
         "the CID list given to encodeCompositeWidths is strictly increasing with CIDs <= 65535 (slices.Sorted(maps.Keys))",
         "characters outside a font's repertoire (shown as .notdef; for fonts encoded through a predefined CMap also glyphs "
         "outside the character collection) are outside the property: only count, width and writer/reader agreement are checked",
-        "NewFromCMap: the guarded theorem fromcmap_first_wins assumes that no code occurs twice in cmap.All "
-        "(no child CMap re-maps a code of its parent); fromcmap_inverse_refuted is the unguarded statement",
+        "NewFromCMap: fromcmap_sound_first_wins (the table the code builds since F50) holds for every CMap; "
+        "fromcmap_first_wins / fromcmap_inverse_refuted describe the table before the fix",
     ],
     trusted=[
         "hand-written Gallina models coq/C14/{SimpleEnc,CidEnc,Widths,Encoding}.v of font/encoding/simpleenc, font/encoding/cidenc, "
@@ -87,10 +87,11 @@ c.finish(
         "implementation, which is a test",
         "fixed_no_sharing_refuted: encoders with one code per CID (identity, NewFromCMap) give a glyph shown with two different "
         "texts a single code (finding identity-cid-encoder:same-glyph-different-text); identity_consistent is the guarded statement",
-        "fromcmap_inverse_refuted: NewFromCMap keeps, for a CID, a code which a child CMap re-maps to another CID (finding "
-        "cidenc-fromcmap:code-remapped-by-child-cmap); fromcmap_first_wins (guarded) and fromcmap_sound_first_wins (repaired table) hold",
-        "finding cmap-with-parent:codespace-of-parent-ignored (reader-side codec of fonts whose CMap uses another CMap) lies in "
-        "code that is not modelled (dict.makeCodec); documents with such a font are attributed to it as a whole",
+        "fromcmap_inverse_refuted describes NewFromCMap before fix F50 (a CID kept a code which a child CMap re-maps to another "
+        "CID); the code now builds the table modelled by tbl_all_sound (fromcmap_sound_first_wins, every CMap); "
+        "fromcmap_first_wins is the guarded statement about the old table",
+        "the reader-side codec of fonts whose CMap uses another CMap (dict.makeCodec, fixed in F50) and the TJ arrays of "
+        "Builder.TextShowGlyphs (fixed in F49) are not modelled: they are covered by the end-to-end oracle only",
         "text_derivable / text_derivable_dict carry the non-empty-text guard (text_derivable_emptytext_refuted shows it is needed)",
         "which free code Encode picks (base-encoding match, scoring), glyph naming (makeGlyphName) and the NFC single-rune code of "
         "the UTF-8 encoder are angelic / outside the model",
